@@ -6,8 +6,8 @@
 
   Float-only facts (max / average / rounded detuning of the samples) enter the model as
   the oracle record `PulseSummary`; the theorems hold for every value of it.
-  "Finite samples" is *not* carried by a theorem: neither `Pulse.__init__` nor
-  `validate_pulse` tests finiteness (monitor-only clause, see DESIGN §5 C01).
+  "Finite samples" is the flag `PulseSummary.finite` (oracle: `np.isfinite` over the samples);
+  since the repair of F31 `validate_pulse` tests it and `limits_invariant` carries it.
 -/
 import Proofs.SeqInv
 import Properties.C02
@@ -16,27 +16,28 @@ namespace C01
 
 /-- **Acceptance ⇔ inside every limit.**  `validate_pulse` (channel or DMM) succeeds exactly
 when amplitude ≤ max, |detuning| ≤ max, average amplitude not in (0, min_avg) and, on a DMM,
-detuning ≤ 0 and above the per-atom and total bottoms given the detuning-map weights. -/
+detuning ≤ 0 and above the per-atom and total bottoms given the detuning-map weights — and
+every sample is finite (repair of F31: NaN used to pass every comparison). -/
 theorem validate_pulse_iff (c : ChanState) (σ : PulseSummary) :
     validatePulse c σ = .ok () ↔ WithinLimits c.cfg c.maxW c.sumW σ :=
   validatePulse_iff c σ
 
-/-- **Undefined limits of virtual channels constrain nothing.** -/
-theorem virtual_unconstrained (c : ChanState) (σ : PulseSummary)
+/-- **Undefined limits of virtual channels constrain nothing** (beyond finite samples). -/
+theorem virtual_unconstrained (c : ChanState) (σ : PulseSummary) (hf : σ.finite = true)
     (h1 : c.cfg.maxAmp = none) (h2 : c.cfg.maxAbsDet = none) (h3 : c.cfg.minAvgAmp = 0)
     (h4 : c.cfg.isDmm = false) : validatePulse c σ = .ok () := by
   rw [validatePulse_iff]
-  refine ⟨fun m hm => (by rw [h1] at hm; cases hm), fun m hm => (by rw [h2] at hm; cases hm), ?_,
+  refine ⟨hf, fun m hm => (by rw [h1] at hm; cases hm), fun m hm => (by rw [h2] at hm; cases hm), ?_,
     fun h => (by rw [h4] at h; cases h)⟩
   rw [h3]; intro ⟨a, b⟩; exact absurd a (Rat.not_lt.mpr (Rat.le_of_lt b))
 
 /-- ... and on a virtual DMM without bottoms only the sign of the detuning is constrained. -/
-theorem virtual_dmm_unconstrained (c : ChanState) (σ : PulseSummary)
+theorem virtual_dmm_unconstrained (c : ChanState) (σ : PulseSummary) (hf : σ.finite = true)
     (h1 : c.cfg.maxAmp = none) (h2 : c.cfg.maxAbsDet = none) (h3 : c.cfg.minAvgAmp = 0)
     (h5 : c.cfg.bottom = none) (h6 : c.cfg.totalBottom = none) (h7 : σ.maxDetR ≤ 0) :
     validatePulse c σ = .ok () := by
   rw [validatePulse_iff]
-  refine ⟨fun m hm => (by rw [h1] at hm; cases hm), fun m hm => (by rw [h2] at hm; cases hm), ?_,
+  refine ⟨hf, fun m hm => (by rw [h1] at hm; cases hm), fun m hm => (by rw [h2] at hm; cases hm), ?_,
     fun _ => ⟨h7, fun b hb => (by rw [h5] at hb; cases hb), fun b hb => (by rw [h6] at hb; cases hb)⟩⟩
   rw [h3]; intro ⟨a, b⟩; exact absurd a (Rat.not_lt.mpr (Rat.le_of_lt b))
 
@@ -167,7 +168,7 @@ def exChan : ChanState :=
 
 example : WithinLimits exChan.cfg exChan.maxW exChan.sumW
     { maxAmp := 10, avgAmp := 5, maxAbsDetR := 20, maxDetR := 20, minDetR := -20 } := by
-  refine ⟨?_, ?_, ?_, ?_⟩ <;> simp [exChan] <;> decide
+  refine ⟨rfl, ?_, ?_, ?_, ?_⟩ <;> simp [exChan] <;> decide
 
 example : validateDuration exChan.cfg 101 = .ok 104 := by rfl
 example : validateDuration exChan.cfg 1001 = .error .durTooLong := by rfl  -- F12 repaired
